@@ -247,6 +247,13 @@ pub proof fn lemma_step_ascii(s: &str, r: int, c: char)
     axiom_boff_boundary(s, i + 1);
     axiom_cidx_boff(s@, i + 1);
 }
+/// broadcast form of lemma_first_unique (opt in with `broadcast use`): a found first occurrence is `first_idx`
+pub broadcast proof fn b_first_unique(s: Seq<char>, p: Seq<char>, i: int)
+    requires #[trigger] first_at(s, p, i)
+    ensures first_idx(s, p) == i, contains_seq(s, p), is_sub_at(s, p, i)
+{
+    lemma_first_unique(s, p, i);
+}
 /// starts_with / ends_with a single char
 pub broadcast proof fn b_sub_at_char(s: Seq<char>, c: char, i: int)
     ensures #[trigger] is_sub_at(s, seq![c], i) == (0 <= i < s.len() && s[i] == c)
